@@ -339,7 +339,7 @@ def in_search_phase(cx):
     if not complete:
         chk.drift.append({"what": "in-search-insert-sites-the-hooks-do-not-cover",
                           "detail": "the tables counted more inserts than the search's recorded call sites made"})
-    for k in ("tables", "resets", "newsearches", "inserts", "forced", "free", "free_other_key", "probes", "hits",
+    for k in ("tables", "resets", "newsearches", "fills", "inserts", "forced", "free", "free_other_key", "probes", "hits",
               "hits_earlier_search", "misses_other_key"):
         if tot.get(k, 0) == 0:
             raise ToolError("vacuous in-search run: no '%s' in %s" % (k, tot))
@@ -637,7 +637,8 @@ def main():
                 "policy decides (forced + forbidden + free + aliased).  In addition (table_inside_the_search): every probe / insert / "
                 "new search that REAL searches perform on their table (hook H9, sessions of searches sharing one table, both builds) "
                 "is a step of TransTable's own actions in Trace_TableInSearch; what each probe returned must be what some content "
-                "the property allows for the slot returns (VIOLATION) and what the CodeView table returns (DRIFT)",
+                "the property allows for the slot returns (VIOLATION) and what the CodeView table returns (DRIFT); after every search the fill "
+                "indicator must equal the fraction of slots that received an insert since the table was last emptied (+-1 permille)",
     })
     chk.assumptions += [
         "bounded model: 3/2%s slots, 5 keys (two colliding pairs at 3 slots), depths %s, 3 bounds, GenMod = 4 stored ages; "
